@@ -352,7 +352,7 @@ pub fn run(args: &Args) -> i32 {
                     break;
                 }
             }
-            let n = cands.len().min(4);
+            let n = cands.len().min(if args.digest_mode { 3 } else { 4 });
             let cands = &cands[..n];
             for code in 0..STATES.len().pow(n as u32) {
                 let mut c = code;
